@@ -468,7 +468,7 @@ func (c *c02Case) checkImage(where string, acked, inflight int, res dbOpenRes, c
 		// C13: the state of some prefix of the acknowledged sequence that covers everything before the last completed rotation
 		lastRot := 0
 		for i := 0; i < acked; i++ {
-			if c.Steps[i].Op == "rotate" || c.Steps[i].Op == "close" {
+			if c.Steps[i].Op == "rotate" || c.Steps[i].Op == "close" || c.Steps[i].Op == "reopen" {
 				lastRot = i
 			}
 		}
@@ -643,6 +643,9 @@ func genCrashCase(r *rand.Rand, async bool, nest int, nsteps int, big bool) *c02
 		case x < 11:
 			c.Steps = append(c.Steps, dbStep{Op: "rotate"})
 			rot++
+			if r.Intn(6) == 0 {
+				c.Steps = append(c.Steps, dbStep{Op: "reopen"}) // the session continues in a new Open of the same process
+			}
 		default:
 			if rot >= 2 {
 				c.Steps = append(c.Steps, dbStep{Op: "compact"})
@@ -657,6 +660,35 @@ func genCrashCase(r *rand.Rand, async bool, nest int, nsteps int, big bool) *c02
 	if r.Intn(2) == 0 {
 		c.Steps = append(c.Steps, dbStep{Op: "close"})
 	}
+	return c
+}
+
+// a self-triggered rotation whose flush (many small writes) overlaps later operations that overwrite the same keys
+// with much shorter values and delete one: the table recovery builds from the log is SMALLER than the half-written
+// one the killed flush left behind; with a restart in the middle of the session
+func genShrinkCrashCase(r *rand.Rand, nest int) *c02Case {
+	var keys [][]byte
+	for k := 0; k < 5; k++ {
+		keys = append(keys, []byte(fmt.Sprintf("key%d", k)))
+	}
+	c := &c02Case{Keys: keys, Nest: nest}
+	c.Opts = dbOpts{MemstoreBytes: 7000, Threshold: 10, MaxSize: 5 << 30, RatioPct: 100, WBuf: 16, RBuf: 4096}
+	c.Steps = append(c.Steps, dbStep{Op: "put", K: keys[4], V: []byte("earlier session")}, dbStep{Op: "reopen"})
+	for k := 0; k < 4; k++ { // the fourth one exceeds the limit: rotation, and the flush of these four starts
+		v := make([]byte, 2000+r.Intn(50))
+		r.Read(v)
+		c.Steps = append(c.Steps, dbStep{Op: "put", K: keys[k], V: v})
+	}
+	// while that flush runs: the same keys deleted or overwritten with one byte (tombstones carry no checksum: the index
+	// entries of the table that recovery writes are shorter than the ones in the half-written table)
+	for k := 0; k < 4; k++ {
+		if k == 2 && r.Intn(2) == 0 {
+			c.Steps = append(c.Steps, dbStep{Op: "put", K: keys[k], V: []byte{'x'}})
+		} else {
+			c.Steps = append(c.Steps, dbStep{Op: "del", K: keys[k]})
+		}
+	}
+	c.Steps = append(c.Steps, dbStep{Op: "rotate"})
 	return c
 }
 
@@ -676,7 +708,7 @@ func genC02(r *rand.Rand, tier string) []Case {
 	for i := 0; i < (n+3)/4; i++ {
 		cases = append(cases, genTinyCrashCase(r, false, 0), genTinyCrashCase(r, false, 0))
 	}
-	cases = append(cases, genHotKeyCrashCase(r, false))
+	cases = append(cases, genHotKeyCrashCase(r, false), genShrinkCrashCase(r, 0))
 	return cases
 }
 
@@ -686,6 +718,8 @@ func genBigGenerationCase(r *rand.Rand) *c02Case {
 	keys := [][]byte{[]byte("a"), []byte("b"), []byte("c"), []byte("d")}
 	c := &c02Case{Keys: keys, NoAbs: true}
 	c.Opts = dbOpts{MemstoreBytes: 1 << 30, Threshold: 10, MaxSize: 5 << 30, RatioPct: 100, WBuf: 4096, RBuf: 4096, AsyncWAL: true}
+	// a previous session that ended cleanly: its last WAL file (header only) has a number above zero
+	c.Steps = append(c.Steps, dbStep{Op: "put", K: keys[3], V: []byte("previous session")}, dbStep{Op: "rotate"}, dbStep{Op: "reopen"})
 	c.Steps = append(c.Steps, dbStep{Op: "put", K: keys[0], V: []byte("first")})
 	for j := 0; j < 3; j++ {
 		v := make([]byte, 1500000+r.Intn(200000))
@@ -773,6 +807,7 @@ func genC10(r *rand.Rand, tier string) []Case {
 	for i := 0; i < (n+2)/3; i++ {
 		cases = append(cases, genTinyCrashCase(r, false, nest))
 	}
+	cases = append(cases, genShrinkCrashCase(r, nest/2))
 	return cases
 }
 
